@@ -21,6 +21,7 @@ type GCall struct {
 	UID     int  `json:"uid"`
 	Natives int  `json:"natives"` // bit 0 InvokableRun, bit 1 StreamableRun
 	Fails   bool `json:"fails,omitempty"`
+	Panics  bool `json:"panics,omitempty"`  // (with Fails) the tool fails by panicking
 	Intr    int  `json:"intr,omitempty"`    // the first Intr executions return compose.InterruptAndRerun
 	Unknown bool `json:"unknown,omitempty"` // no such tool in the ToolsNode: the call is answered by its UnknownToolsHandler
 	DelayUs int  `json:"delay,omitempty"`
@@ -61,6 +62,9 @@ func (t *callTool) run(arg string) (string, error) {
 	t.rr.execs[t.c.UID] = append(t.rr.execs[t.c.UID], bodyRec{In: arg, Out: res, Failed: t.c.Fails})
 	t.rr.mu.Unlock()
 	if t.c.Fails {
+		if t.c.Panics {
+			panic(panicMsg)
+		}
 		return "", errNode
 	}
 	return res, nil
